@@ -842,12 +842,13 @@ def run(chk):
         ru = resource.getrusage(resource.RUSAGE_CHILDREN)
         stage[name] = round(_t.time() - _t0, 1)
         cpu[name] = round(ru.ru_utime + ru.ru_stime, 1)
-    run_parallel([(lambda m=m: sany(m)) for m in ('Logging', 'LogRotation', 'Gen_Logging', 'Trace_Logging',
-                                                  'Gen_LogRotation', 'Trace_LogRotation')], width=6)
     # 1 everything TLC does without the code, side by side: design checks (the specification's own properties, incl.
     #   a configuration that must fail) and the emission of the behaviours to replay
     tier = 'quick' if quick else 'thorough'
-    gen = lambda cfg, **kw: (lambda: emit_behaviours('Gen_Logging', cfg, maximal_only=False, timeout=1500, **kw))
+    # the emissions of the quick tier are short single-threaded JVM runs: start-up options that suit them
+    short = {'env': {'_JAVA_OPTIONS': '-XX:TieredStopAtLevel=1 -XX:ParallelGCThreads=2 -XX:CICompilerCount=1'}} if quick else {}
+    gen = lambda cfg, **kw: (lambda: emit_behaviours('Gen_Logging', cfg, maximal_only=False, timeout=1500,
+                                                     **dict(short, **kw)))
     nw = 2 if quick else None       # small models side by side: few workers each
     jobs = {
         'mc': lambda: model_check('Logging', f'MC_Logging_{tier}.cfg', timeout=900, workers=nw),
@@ -860,19 +861,21 @@ def run(chk):
         'gen_days': gen(f'Gen_Logging_days_{tier}.cfg'),
         'gen_mixed': gen(f'Gen_Logging_mixed_{tier}.cfg'),
         'gen_rot': lambda: emit_behaviours('Gen_LogRotation', f'Gen_LogRotation_{tier}.cfg', maximal_only=False,
-                                           timeout=600),
+                                           timeout=600, **short),
     }
     if not quick:
         jobs['mc_levels'] = lambda: model_check('Logging', 'MC_Logging_levels.cfg', timeout=900)  # six levels, two connections
         jobs['gen_sim'] = gen('Gen_Logging_sim.cfg', simulate='num=20000', depth=7, seed=chk.seed + 1, workers=1)
         jobs['gen_sinks2'] = gen('Gen_Logging_sinks2_thorough.cfg')
         jobs['gen_sinksim'] = gen('Gen_Logging_sinksim.cfg', simulate='num=20000', depth=9, seed=chk.seed + 2, workers=1)
-    tlc = dict(zip(jobs, run_parallel(list(jobs.values()), width=8)))
+    sanies = [(lambda m=m: sany(m)) for m in ('Logging', 'LogRotation', 'Gen_Logging', 'Trace_Logging',
+                                              'Gen_LogRotation', 'Trace_LogRotation')]
+    tlc = dict(zip(jobs, run_parallel(sanies + list(jobs.values()), width=16)[len(sanies):]))
     for k, r in tlc.items():
         chk.add_tlc(r[0] if isinstance(r, tuple) else r)
     mark('design+emission')
 
-    # 2 spec -> code, routing
+    # 2 every execution of the real code in one pool: replays (spec -> code) and recorded histories (code -> spec)
     behs = tlc['gen'][1]
     if quick:
         # the quick tier replays every third behaviour (offset by the seed); thorough replays all, over four levels,
@@ -883,49 +886,51 @@ def run(chk):
         deep = tlc['gen_sim'][1]
         behs = behs + deep
         chk.notes['routing_behaviours_simulated_depth6'] = len(deep)
-    res = pool_map(_replay_routing, behs)
-    for beh, bad in zip(behs, res):
-        chk.impl_traces += 1
-        acts = [{k: v for k, v in s.items() if k != 'exp'} for s in beh]
-        nontriv = any(s['act'] == 'emit' and s['exp']['last']['to'] for s in beh)
-        chk.case(json.dumps(acts, sort_keys=True), nontriv)
-        if bad:
-            sig = {'module': 'Logging', 'action': bad['action']['act'],
-                   'diff': sorted(k for k in bad['expected'] if bad['expected'][k] != bad['observed'].get(k))}
-            chk.violation(sig, {'behaviour': acts, **bad})
-    if behs:
-        chk.sample({'routing_behaviour': behs[len(behs) // 2]})
-    mark('replay')
-
-    # 2b spec -> code, local sinks
     sbehs = []
     for k in ('gen_sinks', 'gen_days', 'gen_mixed', 'gen_sinks2', 'gen_sinksim'):
         if k in tlc:
             chk.notes['sink_behaviours_' + k[4:]] = len(tlc[k][1])
             sbehs += tlc[k][1]
-    res = pool_map(_replay_sinks, sbehs)
-    nbad = 0
-    for beh, bad in zip(sbehs, res):
-        chk.impl_traces += 1
-        acts = beh[:1] + [{k: v for k, v in s.items() if k != 'exp'} for s in beh[1:]]
-        nontriv = any(set(s['exp']['last'].get('sinks', ())) - {'console'} for s in beh)
-        chk.case('sinks' + json.dumps(acts, sort_keys=True), nontriv)
-        if bad:
-            nbad += 1
-            chk.violation(_sig_sinks(bad), {'sink_behaviour': acts, **bad})
-    chk.notes['sink_behaviours_not_reproduced'] = nbad
-    if sbehs:
-        chk.sample({'sink_behaviour': sbehs[len(sbehs) // 2]})
-    mark('replay_sinks')
-
-    # 3 code -> spec, routing and local sinks
     n = 300 if quick else 3000
-    ns = 300 if quick else 4000
-    traces = pool_map(_random_trace, [(chk.seed * 100003 + i, 40) for i in range(n)])
-    straces = pool_map(_random_sink_trace, [(chk.seed * 100019 + i, 30 if quick else 45) for i in range(ns)])
-    traces = traces + straces
-    # no vacuity: an observation that is wrong in one sink must be refused
-    forged = []
+    ns = 250 if quick else 4000
+    # concurrent connections: requests in different threads, disconnect outside the dispatcher lock,
+    # every source line of logging.py / dispatcher.py a possible preemption point
+    cjobs = []
+    for name in CONC:
+        cjobs.append((name, 'dfs', chk.seed, 120 if quick else 3000))
+        cjobs.append((name, 'rnd', chk.seed + 1, 60 if quick else 2000))
+    # rotation: spec -> code cases, judged by the trace spec
+    cases = {}
+    for b in tlc['gen_rot'][1]:
+        c = {'n': b['n'], 'start': b['start'], 'days': sorted(b['days']), 'foreign': sorted(b['foreign']),
+             'steps': b['steps']}
+        cases[json.dumps(c, sort_keys=True)] = c
+    # code -> spec additions: random bigger directories
+    rnd = random.Random(chk.seed + 7)
+    for _ in range(100 if quick else 2000):
+        start = rnd.randint(2, 12)
+        c = {'n': rnd.randint(0, 6), 'start': start,
+             'days': sorted(set(rnd.sample(range(1, start), rnd.randint(0, start - 1))) | {start}),
+             'foreign': sorted(rnd.sample(['before', 'after', 'ext', 'prefix'], rnd.randint(0, 4))),
+             'steps': [rnd.randint(1, 3) for _ in range(rnd.randint(1, 4))]}
+        cases[json.dumps(c, sort_keys=True)] = c
+    cases = list(cases.values())
+    items = ([('routing', x) for x in behs] + [('sinks', x) for x in sbehs] +
+             [('rtrace', (chk.seed * 100003 + i, 40)) for i in range(n)] +
+             [('strace', (chk.seed * 100019 + i, 30 if quick else 45)) for i in range(ns)] +
+             [('rot', c) for c in cases])
+    chunk = 24
+    for j, job in enumerate(cjobs):         # the long jobs first, one per chunk
+        items.insert(j * chunk, ('conc', job))
+    out = {}
+    for (kind, _), r in zip(items, pool_map(_work, items, chunksize=chunk)):
+        out.setdefault(kind, []).append(r)
+    mark('executions')
+
+    # 3 verdicts on the recorded executions: three batches of traces validated side by side
+    traces = out['rtrace'] + out['strace']
+    straces = out['strace']
+    forged = []         # no vacuity: an observation that is wrong in one sink must be refused
     for tr in straces:
         k = [i for i, e in enumerate(tr) if e['ev'] == 'comlog' and 'node' not in e['sinks']]
         if k and len(forged) < 3:
@@ -937,7 +942,55 @@ def run(chk):
             else:
                 f[-1]['sinks'] = sorted(set(f[-1]['sinks']) ^ {'console'})     # console threshold ignored
             forged.append(f)
-    verdicts, st, tr, extra = validate_traces('Trace_Logging', traces + forged, 'Trace_Logging.cfg', collect=('DEVS',))
+    ctraces, corigin, seen = [], [], set()
+    for name, runs in out['conc']:
+        for flat, tr, exc, stuck in runs:
+            if (name, tuple(flat)) in seen:
+                continue
+            seen.add((name, tuple(flat)))
+            if exc or stuck:
+                chk.violation({'module': 'Logging', 'concurrent': name, 'kind': 'exception' if exc else 'stuck',
+                               'exc': sorted(exc.values())[0][:60] if exc else ''},
+                              {'conc': name, 'choices': flat, 'exceptions': exc})
+                continue
+            ctraces.append(tr)
+            corigin.append((name, flat))
+    rtraces = out['rot']
+    v_rand, v_conc, v_rot = run_parallel([
+        lambda: validate_traces('Trace_Logging', traces + forged, 'Trace_Logging.cfg', collect=('DEVS',)),
+        lambda: validate_traces('Trace_Logging', ctraces, 'Trace_Logging.cfg'),
+        lambda: validate_traces('Trace_LogRotation', rtraces, 'Trace_LogRotation.cfg')], width=3)
+    mark('validation')
+
+    # 3a spec -> code, routing
+    for beh, bad in zip(behs, out.get('routing', [])):
+        chk.impl_traces += 1
+        acts = [{k: v for k, v in s.items() if k != 'exp'} for s in beh]
+        nontriv = any(s['act'] == 'emit' and s['exp']['last']['to'] for s in beh)
+        chk.case(json.dumps(acts, sort_keys=True), nontriv)
+        if bad:
+            sig = {'module': 'Logging', 'action': bad['action']['act'],
+                   'diff': sorted(k for k in bad['expected'] if bad['expected'][k] != bad['observed'].get(k))}
+            chk.violation(sig, {'behaviour': acts, **bad})
+    if behs:
+        chk.sample({'routing_behaviour': behs[len(behs) // 2]})
+
+    # 3b spec -> code, local sinks
+    nbad = 0
+    for beh, bad in zip(sbehs, out.get('sinks', [])):
+        chk.impl_traces += 1
+        acts = beh[:1] + [{k: v for k, v in s.items() if k != 'exp'} for s in beh[1:]]
+        nontriv = any(set(s['exp']['last'].get('sinks', ())) - {'console'} for s in beh)
+        chk.case('sinks' + json.dumps(acts, sort_keys=True), nontriv)
+        if bad:
+            nbad += 1
+            chk.violation(_sig_sinks(bad), {'sink_behaviour': acts, **bad})
+    chk.notes['sink_behaviours_not_reproduced'] = nbad
+    if sbehs:
+        chk.sample({'sink_behaviour': sbehs[len(sbehs) // 2]})
+
+    # 3c code -> spec, routing and local sinks
+    verdicts, st, tr, extra = v_rand
     chk.states += st
     chk.transitions += tr
     if len(forged) < 3 or any(verdicts.pop(len(traces) + j) is None for j in range(len(forged))):
@@ -954,7 +1007,7 @@ def run(chk):
             l = v[0]
             ev = traces[i][l - 1] if 0 < l <= len(traces[i]) else None
             chk.violation({'module': 'Logging', 'trace_event': (ev or {}).get('ev'), 'clause': v[1]},
-                          {'trace': traces[i], 'failed_at': l, 'event': ev})
+                          {'sink_trace' if i >= n else 'trace': traces[i], 'failed_at': l, 'event': ev})
         for dev in sorted(devs.get(i, ())):
             count[dev] = count.get(dev, 0) + 1
             chk.violation({'module': 'Logging', 'deviation': dev}, {'sink_trace': traces[i]})
@@ -962,27 +1015,8 @@ def run(chk):
     chk.sample({'routing_trace_prefix': traces[0][:4]})
     chk.sample({'sink_trace_prefix': straces[0][:5]})
 
-    mark('random')
-    # 3b concurrent connections: requests in different threads, disconnect outside the dispatcher lock,
-    #    every source line of logging.py / dispatcher.py a possible preemption point
-    jobs = []
-    for name in CONC:
-        jobs.append((name, 'dfs', chk.seed, 120 if quick else 3000))
-        jobs.append((name, 'rnd', chk.seed + 1, 60 if quick else 2000))
-    ctraces, corigin, seen = [], [], set()
-    for name, out in pool_map(_conc_explore, jobs, chunksize=1):
-        for flat, tr, exc, stuck in out:
-            if (name, tuple(flat)) in seen:
-                continue
-            seen.add((name, tuple(flat)))
-            if exc or stuck:
-                chk.violation({'module': 'Logging', 'concurrent': name, 'kind': 'exception' if exc else 'stuck',
-                               'exc': sorted(exc.values())[0][:60] if exc else ''},
-                              {'conc': name, 'choices': flat, 'exceptions': exc})
-                continue
-            ctraces.append(tr)
-            corigin.append((name, flat))
-    verdicts, st, tr_ = validate_traces('Trace_Logging', ctraces, 'Trace_Logging.cfg')
+    # 3d concurrent connections
+    verdicts, st, tr_ = v_conc
     chk.states += st
     chk.transitions += tr_
     for i, v in verdicts.items():
@@ -995,26 +1029,9 @@ def run(chk):
                           {'conc': corigin[i][0], 'choices': corigin[i][1], 'trace': ctraces[i], 'failed_at': l})
     chk.notes['concurrent_schedules'] = len(ctraces)
 
-    mark('conc')
-    # 4 rotation: spec -> code cases, judged by the trace spec
-    behs = tlc['gen_rot'][1]
-    cases = {}
-    for b in behs:
-        c = {'n': b['n'], 'start': b['start'], 'days': sorted(b['days']), 'foreign': sorted(b['foreign']),
-             'steps': b['steps']}
-        cases[json.dumps(c, sort_keys=True)] = c
-    # code -> spec additions: random bigger directories
-    rnd = random.Random(chk.seed + 7)
-    for _ in range(100 if quick else 2000):
-        start = rnd.randint(2, 12)
-        c = {'n': rnd.randint(0, 6), 'start': start,
-             'days': sorted(set(rnd.sample(range(1, start), rnd.randint(0, start - 1))) | {start}),
-             'foreign': sorted(rnd.sample(['before', 'after', 'ext', 'prefix'], rnd.randint(0, 4))),
-             'steps': [rnd.randint(1, 3) for _ in range(rnd.randint(1, 4))]}
-        cases[json.dumps(c, sort_keys=True)] = c
-    cases = list(cases.values())
-    traces = pool_map(_run_rotation, cases)
-    verdicts, st, tr = validate_traces('Trace_LogRotation', traces, 'Trace_LogRotation.cfg')
+    # 4 rotation
+    traces = rtraces
+    verdicts, st, tr = v_rot
     chk.states += st
     chk.transitions += tr
     for i, v in verdicts.items():
@@ -1043,10 +1060,17 @@ def run(chk):
                            'foreign_after': 'after' in c['foreign']},
                           {'case': c, 'trace': traces[i], 'failed_at': l})
     chk.sample({'rotation_trace': traces[len(traces) // 3]})
-    mark('rotation')
+    mark('verdicts')
     chk.notes['wall_until_end_of_stage'] = stage
     chk.notes['cpu_of_children_until_end_of_stage'] = cpu
     chk.exhaustive = False
+
+
+def _work(item):
+    """one execution of the real code of any kind (all of them share one pool of worker processes)"""
+    kind, arg = item
+    return {'routing': _replay_routing, 'sinks': _replay_sinks, 'rtrace': _random_trace,
+            'strace': _random_sink_trace, 'conc': _conc_explore, 'rot': _run_rotation}[kind](arg)
 
 
 def replay(chk, rep):
